@@ -214,6 +214,15 @@ func streamUnmarshal(r *hx.Rng, cfs []*cfile, bs *builtSet) {
 					fail("generated Unmarshal disagrees with the reference on a legal encoding", cs, refStrict, resp, classify(cls, u.md, u.input))
 				}
 				sink.Add("unmarshal:"+bv.V.Name(), fmt.Sprintf("G UM@%s %s %d %s", bv.V.Name(), u.c.Term, idx, hx.B(u.input)), resp, len(u.input) > 0)
+				// the variant generator must stay inside the hypothesis space of the C06 theorems (GenLegal.v),
+				// and the finding classifier must agree with the theorem's exclusion predicate
+				if bv == bs.variants[0] {
+					dup := "nodup"
+					if dupSingularMsg(u.md, u.input) {
+						dup = "dup"
+					}
+					sink.Add("legal", fmt.Sprintf("G LG %s %d %s", u.c.Term, idx, hx.B(u.input)), "legal "+dup, len(u.input) > 0)
+				}
 			case "C08":
 				sink.Count("resp:" + strings.SplitN(resp, " ", 2)[0])
 				if strings.HasPrefix(resp, "ok ") && strings.HasPrefix(refStrict, "ok ") && resp != refStrict {
